@@ -34,7 +34,7 @@ Applies(fmt, prop) ==
 QuoteChars == {33, 34, 35, 36, 37, 38, 39, 42, 43, 45, 47, 58, 59, 61, 63, 92, 94, 95, 96, 126}
 EscapeChars == {34, 92}
 DecimalChars == {46, 44}
-ThousandsChars == {44, 46}
+ThousandsChars == {44, 46, 32}   \* docs/writing-an-icd.rst: "comma (,), dot (.) and the space character"
 \* spellings of a character: which ones can spell code point cp at all (the harness never asks for the others)
 \* and what a well-formed value denotes; <<"bad">> = must be refused
 Denotes(prop, v) ==
